@@ -916,3 +916,802 @@ def Told (s : St) : Prop :=
 
 end UvModel.IoWatch
 
+/-! ### kernel interest map: algebra of `epoll_ctl`, the kernel-side invariant `KCore` and its preservation -/
+
+namespace UvModel.IoWatch
+
+/-- mask of the first entry with key (o, fd) -/
+def entMask (l : List Ent) (o fd : Nat) : Option Mask :=
+  match l with
+  | [] => none
+  | e :: r => if e.ofd = o ∧ e.fd = fd then some e.mask else entMask r o fd
+
+/-- the kernel's interest *map*: mask registered for (description, descriptor number) -/
+def Kernel.maskAt (k : Kernel) (o fd : Nat) : Option Mask := entMask k.ents o fd
+
+theorem entMask_none_iff (l : List Ent) (o fd : Nat) :
+    entMask l o fd = none ↔ (l.any fun e => e.ofd == o && e.fd == fd) = false := by
+  induction l with
+  | nil => simp [entMask]
+  | cons e r ih =>
+    simp only [entMask, List.any_cons]
+    by_cases h : e.ofd = o ∧ e.fd = fd
+    · simp [h]
+    · rw [if_neg h, ih]
+      have : (e.ofd == o && e.fd == fd) = false := by
+        simp; intro h1; exact fun h2 => h ⟨h1, h2⟩
+      simp [this]
+
+theorem entMask_append (l : List Ent) (x : Ent) (o fd : Nat) :
+    entMask (l ++ [x]) o fd =
+      (entMask l o fd).or (if x.ofd = o ∧ x.fd = fd then some x.mask else none) := by
+  induction l with
+  | nil => simp [entMask]
+  | cons e r ih =>
+    simp only [List.cons_append, entMask]
+    by_cases h : e.ofd = o ∧ e.fd = fd
+    · simp [h]
+    · rw [if_neg h, if_neg h, ih]
+
+theorem entMask_map (l : List Ent) (o0 fd0 : Nat) (m : Mask) (ow : Option Nat) (o fd : Nat) :
+    entMask (l.map fun e => if (e.ofd == o0 && e.fd == fd0) = true then { e with mask := m, owner := ow } else e) o fd =
+      if o = o0 ∧ fd = fd0 then (entMask l o fd).map (fun _ => m) else entMask l o fd := by
+  induction l with
+  | nil => simp [entMask]
+  | cons e r ih =>
+    simp only [List.map_cons, entMask]
+    by_cases h0 : e.ofd = o0 ∧ e.fd = fd0
+    · have : (e.ofd == o0 && e.fd == fd0) = true := by simp [h0]
+      simp only [this, ↓reduceIte]
+      by_cases h : e.ofd = o ∧ e.fd = fd
+      · have hk : o = o0 ∧ fd = fd0 := ⟨by rw [← h.1, h0.1], by rw [← h.2, h0.2]⟩
+        simp [h, hk]
+      · rw [if_neg h, if_neg h, ih]
+    · have : ¬ (e.ofd == o0 && e.fd == fd0) = true := by
+        simp; intro h1; exact fun h2 => h0 ⟨h1, h2⟩
+      simp only [this, Bool.false_eq_true, ↓reduceIte]
+      by_cases h : e.ofd = o ∧ e.fd = fd
+      · have hk : ¬ (o = o0 ∧ fd = fd0) := fun hc => h0 ⟨by rw [h.1, hc.1], by rw [h.2, hc.2]⟩
+        simp [h, hk]
+      · rw [if_neg h, if_neg h, ih]
+
+theorem entMask_del (l : List Ent) (o0 fd0 o fd : Nat) :
+    entMask (l.filter fun e => !(e.ofd == o0 && e.fd == fd0)) o fd =
+      if o = o0 ∧ fd = fd0 then none else entMask l o fd := by
+  induction l with
+  | nil => simp [entMask]
+  | cons e r ih =>
+    simp only [List.filter_cons]
+    by_cases h0 : e.ofd = o0 ∧ e.fd = fd0
+    · have : (!(e.ofd == o0 && e.fd == fd0)) = false := by simp [h0]
+      simp only [this, Bool.false_eq_true, ↓reduceIte]
+      rw [ih]
+      by_cases hk : o = o0 ∧ fd = fd0
+      · simp [hk]
+      · have hne : ¬ (e.ofd = o ∧ e.fd = fd) :=
+          fun hc => hk ⟨by rw [← hc.1, h0.1], by rw [← hc.2, h0.2]⟩
+        simp [hk, entMask, hne]
+    · have : (!(e.ofd == o0 && e.fd == fd0)) = true := by
+        simp; by_cases h1 : e.ofd = o0
+        · right; exact fun h2 => h0 ⟨h1, h2⟩
+        · left; exact h1
+      simp only [this, ↓reduceIte, entMask]
+      by_cases h : e.ofd = o ∧ e.fd = fd
+      · have hk : ¬ (o = o0 ∧ fd = fd0) := fun hc => h0 ⟨by rw [h.1, hc.1], by rw [h.2, hc.2]⟩
+        simp [h, hk]
+      · rw [if_neg h, if_neg h, ih]
+
+theorem entMask_gc (l : List Ent) (o0 o fd : Nat) :
+    entMask (l.filter fun e => e.ofd != o0) o fd = if o = o0 then none else entMask l o fd := by
+  induction l with
+  | nil => simp [entMask]
+  | cons e r ih =>
+    simp only [List.filter_cons]
+    by_cases h0 : e.ofd = o0
+    · have : (e.ofd != o0) = false := by simp [h0]
+      simp only [this, Bool.false_eq_true, ↓reduceIte]
+      rw [ih]
+      by_cases hk : o = o0
+      · simp [hk]
+      · have hne : ¬ (e.ofd = o ∧ e.fd = fd) := fun hc => hk (by rw [← hc.1, h0])
+        simp [hk, entMask, hne]
+    · have : (e.ofd != o0) = true := by simp [h0]
+      simp only [this, ↓reduceIte, entMask]
+      by_cases h : e.ofd = o ∧ e.fd = fd
+      · have hk : ¬ o = o0 := fun hc => h0 (by rw [h.1, hc])
+        simp [h, hk]
+      · rw [if_neg h, if_neg h, ih]
+
+theorem hasEnt_false_iff (k : Kernel) (o fd : Nat) : k.hasEnt o fd = false ↔ k.maskAt o fd = none := by
+  unfold Kernel.hasEnt Kernel.maskAt; exact (entMask_none_iff _ _ _).symm
+
+theorem hasEnt_true_iff (k : Kernel) (o fd : Nat) : k.hasEnt o fd = true ↔ k.maskAt o fd ≠ none := by
+  have := hasEnt_false_iff k o fd
+  cases hh : k.hasEnt o fd
+  · simp [this.mp hh]
+  · simp; intro hc; rw [this.mpr hc] at hh; cases hh
+
+theorem ctl_ofdAt (k : Kernel) (op : CtlOp) (fd : Nat) (m : Mask) (ow : Option Nat) (fd' : Nat) :
+    (k.ctl op fd m ow).1.ofdAt fd' = k.ofdAt fd' := by
+  unfold Kernel.ctl; split
+  · rfl
+  · cases op <;> simp only [] <;> split <;> rfl
+
+theorem ctl_closed (k : Kernel) (op : CtlOp) (fd : Nat) (m : Mask) (ow : Option Nat) (h : k.ofdAt fd = none) :
+    k.ctl op fd m ow = (k, -9) := by
+  unfold Kernel.ctl; simp [h]
+
+theorem ctl_add_new (k : Kernel) (fd o : Nat) (m : Mask) (ow : Option Nat) (h : k.ofdAt fd = some o)
+    (hn : k.maskAt o fd = none) :
+    (k.ctl .add fd m ow).2 = 0 ∧ ∀ o' fd', (k.ctl .add fd m ow).1.maskAt o' fd' =
+      if o' = o ∧ fd' = fd then some m else k.maskAt o' fd' := by
+  have hh := (hasEnt_false_iff k o fd).mpr hn
+  unfold Kernel.ctl; simp only [h, hh]
+  refine ⟨by simp, fun o' fd' => ?_⟩
+  show entMask (k.ents ++ [⟨o, fd, m, ow⟩]) o' fd' = _
+  rw [entMask_append]
+  by_cases hk : o' = o ∧ fd' = fd
+  · obtain ⟨rfl, rfl⟩ := hk
+    have : entMask k.ents o' fd' = none := hn
+    rw [this]; simp
+  · rw [if_neg hk, if_neg (fun hc => hk ⟨hc.1.symm, hc.2.symm⟩)]
+    show (entMask k.ents o' fd').or none = entMask k.ents o' fd'
+    cases entMask k.ents o' fd' <;> rfl
+
+theorem ctl_add_exists (k : Kernel) (fd o : Nat) (m : Mask) (ow : Option Nat) (h : k.ofdAt fd = some o)
+    (hn : k.maskAt o fd ≠ none) : k.ctl .add fd m ow = (k, -17) := by
+  have hh := (hasEnt_true_iff k o fd).mpr hn
+  unfold Kernel.ctl; simp [h, hh]
+
+theorem ctl_mod_ok (k : Kernel) (fd o : Nat) (m : Mask) (ow : Option Nat) (h : k.ofdAt fd = some o)
+    (hn : k.maskAt o fd ≠ none) :
+    (k.ctl .mod fd m ow).2 = 0 ∧ ∀ o' fd', (k.ctl .mod fd m ow).1.maskAt o' fd' =
+      if o' = o ∧ fd' = fd then some m else k.maskAt o' fd' := by
+  have hh := (hasEnt_true_iff k o fd).mpr hn
+  unfold Kernel.ctl; simp only [h, hh, if_true]
+  refine ⟨by first | trivial | rfl, fun o' fd' => ?_⟩
+  simp only [Kernel.maskAt, entMask_map]
+  by_cases hk : o' = o ∧ fd' = fd
+  · rw [if_pos hk, if_pos hk]
+    obtain ⟨rfl, rfl⟩ := hk
+    cases hm : entMask k.ents o' fd' with
+    | none => exact absurd hm hn
+    | some x => rfl
+  · rw [if_neg hk, if_neg hk]
+
+theorem ctl_mod_missing (k : Kernel) (fd o : Nat) (m : Mask) (ow : Option Nat) (h : k.ofdAt fd = some o)
+    (hn : k.maskAt o fd = none) : k.ctl .mod fd m ow = (k, -2) := by
+  have hh := (hasEnt_false_iff k o fd).mpr hn
+  unfold Kernel.ctl; simp [h, hh]
+
+theorem ctl_del_maskAt (k : Kernel) (fd o : Nat) (m : Mask) (ow : Option Nat) (h : k.ofdAt fd = some o) :
+    ∀ o' fd', (k.ctl .del fd m ow).1.maskAt o' fd' =
+      if o' = o ∧ fd' = fd then none else k.maskAt o' fd' := by
+  intro o' fd'
+  unfold Kernel.ctl; simp only [h]
+  by_cases hh : k.hasEnt o fd = true
+  · simp only [hh, if_true, Kernel.maskAt, entMask_del]
+  · simp only [hh]
+    have hn := (hasEnt_false_iff k o fd).mp (by simpa using hh)
+    show k.maskAt o' fd' = _
+    by_cases hk : o' = o ∧ fd' = fd
+    · rw [if_pos hk]; obtain ⟨rfl, rfl⟩ := hk; exact hn
+    · rw [if_neg hk]
+
+theorem gc_spec (k : Kernel) (o : Nat) :
+    (∀ fd, (k.gc o).ofdAt fd = k.ofdAt fd) ∧
+    ∀ o' fd', (k.gc o).maskAt o' fd' = if k.refd o = false ∧ o' = o then none else k.maskAt o' fd' := by
+  unfold Kernel.gc
+  by_cases hr : k.refd o = true
+  · simp [hr]
+  · simp only [hr]
+    refine ⟨fun _ => rfl, fun o' fd' => ?_⟩
+    show entMask (k.ents.filter fun e => e.ofd != o) o' fd' = _
+    rw [entMask_gc]
+    by_cases ho : o' = o
+    · simp [ho, hr]
+    · simp [ho, Kernel.maskAt]
+
+end UvModel.IoWatch
+
+namespace UvModel.IoWatch
+
+/-- kernel-side invariant (with the registry facts it needs) -/
+structure KCore (s : St) : Prop where
+  sq : s.sq = []
+  /-- a watcher whose `events` is non-zero has its (description, fd) entry, with exactly that mask -/
+  armed : ∀ id, id < s.ws.length → (getW s id).events ≠ Mask.none →
+    ∃ o, s.k.ofdAt (getW s id).fd = some o ∧ s.k.maskAt o (getW s id).fd = some (getW s id).events
+  /-- every kernel entry sits on a descriptor that still refers to the same description and belongs to
+  the live (not closed) handle of that descriptor, which has been started since its last uv_poll_stop -/
+  owned : ∀ o fd, s.k.maskAt o fd ≠ none → s.k.ofdAt fd = some o ∧
+    ∃ id, id < s.ws.length ∧ (getW s id).fd = fd ∧ (getW s id).closing = false ∧
+      ¬((getW s id).clean = true ∧ (getW s id).pevents = Mask.none)
+  /-- one live handle per descriptor -/
+  uniq : ∀ i j, i < s.ws.length → j < s.ws.length → (getW s i).fd = (getW s j).fd →
+    (getW s i).closing = false → (getW s j).closing = false → i = j
+  quiet : ∀ id, (getW s id).pevents = Mask.none → (getW s id).events = Mask.none
+  live : ∀ id, id < s.ws.length → (getW s id).pevents ≠ Mask.none →
+    (getW s id).closing = false ∧ (getW s id).clean = false ∧ (s.k.ofdAt (getW s id).fd).isSome = true ∧
+    watcherAt s (getW s id).fd = some id
+  queued : ∀ id, id ∈ s.wq → id < s.ws.length ∧ (getW s id).pevents ≠ Mask.none
+
+/-- KCore only looks at these fields -/
+theorem KCore.frame {s t : St} (c : KCore s) (h1 : t.ws = s.ws) (h2 : t.watchers = s.watchers) (h3 : t.wq = s.wq)
+    (h4 : t.k = s.k) (h5 : t.sq = s.sq) : KCore t := by
+  have hg : ∀ id, getW t id = getW s id := by intro id; simp [getW, h1]
+  have hw : ∀ fd, watcherAt t fd = watcherAt s fd := by intro fd; simp [watcherAt, h2]
+  refine ⟨by rw [h5]; exact c.sq, ?_, ?_, ?_, ?_, ?_, ?_⟩
+  · intro id hl; rw [hg, h4]; exact c.armed id (by rw [← h1]; exact hl)
+  · intro o fd; rw [h4]; intro h
+    obtain ⟨a, id, b⟩ := c.owned o fd h
+    exact ⟨a, id, by rw [h1, hg]; exact b⟩
+  · intro i j hi hj; rw [hg, hg]; exact c.uniq i j (by rw [← h1]; exact hi) (by rw [← h1]; exact hj)
+  · intro id; rw [hg]; exact c.quiet id
+  · intro id hl; rw [hg, h4, hw]; exact c.live id (by rw [← h1]; exact hl)
+  · intro id; rw [h3, h1, hg]; exact c.queued id
+
+/-- the kernel seen through `ofdAt`/`maskAt` only -/
+def KEq (k k' : Kernel) : Prop := (∀ fd, k'.ofdAt fd = k.ofdAt fd) ∧ ∀ o fd, k'.maskAt o fd = k.maskAt o fd
+
+theorem KCore.congr {s t : St} (c : KCore s) (h1 : t.ws = s.ws) (h2 : t.watchers = s.watchers) (h3 : t.wq = s.wq)
+    (h4 : KEq s.k t.k) (h5 : t.sq = s.sq) : KCore t := by
+  have hg : ∀ id, getW t id = getW s id := by intro id; simp [getW, h1]
+  have hw : ∀ fd, watcherAt t fd = watcherAt s fd := by intro fd; simp [watcherAt, h2]
+  refine ⟨by rw [h5]; exact c.sq, ?_, ?_, ?_, ?_, ?_, ?_⟩
+  · intro id hl; rw [hg, h4.1]; simp only [h4.2]; exact c.armed id (by rw [← h1]; exact hl)
+  · intro o fd; rw [h4.2, h4.1]; intro h
+    obtain ⟨a, id, b⟩ := c.owned o fd h
+    exact ⟨a, id, by rw [h1, hg]; exact b⟩
+  · intro i j hi hj; rw [hg, hg]; exact c.uniq i j (by rw [← h1]; exact hi) (by rw [← h1]; exact hj)
+  · intro id; rw [hg]; exact c.quiet id
+  · intro id hl; rw [hg, h4.1, hw]; exact c.live id (by rw [← h1]; exact hl)
+  · intro id; rw [h3, h1, hg]; exact c.queued id
+
+/-- rewriting one watcher record without touching fd/pevents/events/closing/clean -/
+theorem KCore.setFlags {s : St} (c : KCore s) (id : Nat) (w : W) (hf : w.fd = (getW s id).fd)
+    (hp : w.pevents = (getW s id).pevents) (he : w.events = (getW s id).events)
+    (hc : w.closing = (getW s id).closing) (hcl : w.clean = (getW s id).clean) : KCore (setW s id w) := by
+  have hg : ∀ j, (getW (setW s id w) j).fd = (getW s j).fd ∧ (getW (setW s id w) j).pevents = (getW s j).pevents ∧
+      (getW (setW s id w) j).events = (getW s j).events ∧ (getW (setW s id w) j).closing = (getW s j).closing ∧
+      (getW (setW s id w) j).clean = (getW s j).clean := by
+    intro j; rw [getW_setW]; split
+    · rename_i h; rw [h.1]; exact ⟨hf, hp, he, hc, hcl⟩
+    · exact ⟨rfl, rfl, rfl, rfl, rfl⟩
+  refine ⟨c.sq, ?_, ?_, ?_, ?_, ?_, ?_⟩
+  · intro j hl; rw [(hg j).1, (hg j).2.2.1]; exact c.armed j (by simpa using hl)
+  · intro o fd h
+    obtain ⟨a, j, b1, b2, b3, b4⟩ := c.owned o fd h
+    exact ⟨a, j, by simpa using b1, by rw [(hg j).1]; exact b2, by rw [(hg j).2.2.2.1]; exact b3,
+      by rw [(hg j).2.2.2.2, (hg j).2.1]; exact b4⟩
+  · intro i j hi hj; rw [(hg i).1, (hg j).1, (hg i).2.2.2.1, (hg j).2.2.2.1]
+    exact c.uniq i j (by simpa using hi) (by simpa using hj)
+  · intro j; rw [(hg j).2.1, (hg j).2.2.1]; exact c.quiet j
+  · intro j hl; rw [(hg j).2.1, (hg j).2.2.2.1, (hg j).2.2.2.2, (hg j).1]
+    exact c.live j (by simpa using hl)
+  · intro j hj; rw [(hg j).2.1]; have := c.queued j hj; exact ⟨by simpa using this.1, this.2⟩
+
+theorem ioStart_k (s : St) (id : Nat) (m : Mask) : (ioStart s id m).k = s.k ∧ (ioStart s id m).sq = s.sq := by
+  unfold ioStart maybeResize setW; simp only []
+  repeat' split
+  all_goals exact ⟨rfl, rfl⟩
+
+theorem ioStop_k (s : St) (id : Nat) (m : Mask) : (ioStop s id m).k = s.k ∧ (ioStop s id m).sq = s.sq := by
+  unfold ioStop setW; simp only []
+  repeat' split
+  all_goals exact ⟨rfl, rfl⟩
+
+theorem Mask.diff_none (m : Mask) : Mask.none.diff m = Mask.none := by
+  simp [Mask.diff, Mask.none]
+
+theorem KCore.start {s : St} (c : KCore s) (id : Nat) (m : Mask) (hid : id < s.ws.length)
+    (hm : m ≠ Mask.none) (hcl : (getW s id).closing = false)
+    (hopen : (s.k.ofdAt (getW s id).fd).isSome = true)
+    (hw : watcherAt s (getW s id).fd = none ∨ watcherAt s (getW s id).fd = some id) :
+    KCore (ioStart s id m) := by
+  obtain ⟨hg, hl, hq, ha, _⟩ := ioStart_spec s id m hid
+  obtain ⟨hk, hsq⟩ := ioStart_k s id m
+  have hpe := Mask.or_ne_none (getW s id).pevents m hm
+  have gfd : ∀ j, (getW (ioStart s id m) j).fd = (getW s j).fd := by
+    intro j; rw [hg]; split
+    · rename_i e; rw [e]
+    · rfl
+  have gev : ∀ j, (getW (ioStart s id m) j).events = (getW s j).events := by
+    intro j; rw [hg]; split
+    · rename_i e; rw [e]
+    · rfl
+  have gcl : ∀ j, (getW (ioStart s id m) j).closing = (getW s j).closing := by
+    intro j; rw [hg]; split
+    · rename_i e; rw [e]
+    · rfl
+  refine ⟨by rw [hsq]; exact c.sq, ?_, ?_, ?_, ?_, ?_, ?_⟩
+  · intro j hj; rw [gfd, gev, hk]; exact c.armed j (by rw [← hl]; exact hj)
+  · intro o fd h; rw [hk] at h ⊢
+    obtain ⟨a, j, b1, b2, b3, b4⟩ := c.owned o fd h
+    refine ⟨a, j, by rw [hl]; exact b1, by rw [gfd]; exact b2, by rw [gcl]; exact b3, ?_⟩
+    rw [hg]; split
+    · simp
+    · exact b4
+  · intro i j hi hj; rw [gfd, gfd, gcl, gcl]; exact c.uniq i j (by rw [← hl]; exact hi) (by rw [← hl]; exact hj)
+  · intro j; rw [hg]; split
+    · intro h; exact absurd h hpe
+    · exact c.quiet j
+  · intro j hj hp; rw [hl] at hj
+    rw [hg] at hp ⊢
+    by_cases e : j = id
+    · subst e; simp only [if_true] at hp ⊢
+      refine ⟨hcl, by first | trivial | rfl, by rw [hk]; exact hopen, ?_⟩
+      rw [ha]
+      by_cases hc : (getW s j).events ≠ (getW s j).pevents.or m ∧ watcherAt s (getW s j).fd = none ∧ (getW s j).fd = (getW s j).fd
+      · rw [if_pos hc]
+      · rw [if_neg hc]
+        rcases hw with hw | hw
+        · -- early return with an unregistered watcher is impossible: events = pevents|m ≠ 0 means it was started
+          exfalso
+          have hev : (getW s j).events = (getW s j).pevents.or m := by
+            by_cases h' : (getW s j).events = (getW s j).pevents.or m
+            · exact h'
+            · exact absurd ⟨h', hw, rfl⟩ hc
+          have hne : (getW s j).pevents ≠ Mask.none := by
+            intro h0; have := c.quiet j h0; rw [this] at hev; exact hpe hev.symm
+          have := (c.live j hj hne).2.2.2
+          rw [hw] at this; cases this
+        · exact hw
+    · rw [if_neg e] at hp ⊢
+      obtain ⟨l1, l2, l3, l4⟩ := c.live j hj hp
+      refine ⟨l1, l2, by rw [hk]; exact l3, ?_⟩
+      rw [ha, if_neg]; exact l4
+      intro hc; rw [hc.2.2] at l4; rw [l4] at hc; cases hc.2.1
+  · intro j hj; rw [hq] at hj; rw [hl, hg]
+    have old : j ∈ s.wq → j < s.ws.length ∧ (if j = id then
+        { getW s id with pevents := (getW s id).pevents.or m, clean := false } else getW s j).pevents ≠ Mask.none := by
+      intro h; have := c.queued j h
+      refine ⟨this.1, ?_⟩
+      split
+      · exact hpe
+      · exact this.2
+    split at hj
+    · exact old hj
+    · split at hj
+      · exact old hj
+      · rcases List.mem_append.mp hj with h | h
+        · exact old h
+        · simp at h; subst h; simp [hid, hpe]
+
+end UvModel.IoWatch
+
+namespace UvModel.IoWatch
+
+theorem KCore.stop {s : St} (c : KCore s) (i : SInv s) (id : Nat) (m : Mask) : KCore (ioStop s id m) := by
+  obtain ⟨hg, hl, hq, ha, _⟩ := ioStop_spec s id m
+  obtain ⟨hk, hsq⟩ := ioStop_k s id m
+  have gfd : ∀ j, (getW (ioStop s id m) j).fd = (getW s j).fd := by
+    intro j; rw [hg]; split
+    · rename_i e; rw [e.1]; split <;> rfl
+    · rfl
+  have gcl : ∀ j, (getW (ioStop s id m) j).closing = (getW s j).closing ∧
+      (getW (ioStop s id m) j).clean = (getW s j).clean := by
+    intro j; rw [hg]; split
+    · rename_i e; rw [e.1]; split <;> exact ⟨rfl, rfl⟩
+    · exact ⟨rfl, rfl⟩
+  -- the new pevents is none only if ... ; events either kept or cleared
+  have gev : ∀ j, (getW (ioStop s id m) j).events = (getW s j).events ∨
+      ((getW (ioStop s id m) j).events = Mask.none ∧ (getW (ioStop s id m) j).pevents = Mask.none) := by
+    intro j; rw [hg]; split
+    · rename_i e; rw [e.1]; split
+      · rename_i hpe; right; exact ⟨rfl, hpe⟩
+      · left; rfl
+    · left; rfl
+  have gpe : ∀ j, (getW (ioStop s id m) j).pevents ≠ Mask.none →
+      (getW s j).pevents ≠ Mask.none ∧ (getW (ioStop s id m) j).events = (getW s j).events := by
+    intro j; rw [hg]; split
+    · rename_i e; rw [e.1]; split
+      · rename_i hpe; intro h; exact absurd hpe h
+      · intro h; refine ⟨?_, rfl⟩
+        intro h0; apply h; show (getW s id).pevents.diff m = Mask.none; rw [h0]; exact Mask.diff_none m
+    · intro h; exact ⟨h, rfl⟩
+  have wat : ∀ j fd, j ≠ id → watcherAt s fd = some j → watcherAt (ioStop s id m) fd = some j := by
+    intro j fd hj h; rw [ha, if_neg]; exact h
+    intro hc; rw [hc.2.2.2] at h; rw [h] at hc; have := hc.2.2.1; simp at this; exact hj this
+  refine ⟨by rw [hsq]; exact c.sq, ?_, ?_, ?_, ?_, ?_, ?_⟩
+  · intro j hj hne; rw [hl] at hj
+    rcases gev j with h | h
+    · rw [gfd, h, hk]; rw [h] at hne; exact c.armed j hj hne
+    · exact absurd h.1 hne
+  · intro o fd h; rw [hk] at h ⊢
+    obtain ⟨a, j, b1, b2, b3, b4⟩ := c.owned o fd h
+    refine ⟨a, j, by rw [hl]; exact b1, by rw [gfd]; exact b2, by rw [(gcl j).1]; exact b3, ?_⟩
+    rw [(gcl j).2]
+    intro hc; apply b4; refine ⟨hc.1, ?_⟩
+    by_cases hp : (getW s j).pevents = Mask.none
+    · exact hp
+    · have := (c.live j b1 hp).2.1; rw [this] at hc; cases hc.1
+  · intro a b ha' hb; rw [gfd, gfd, (gcl a).1, (gcl b).1]
+    exact c.uniq a b (by rw [← hl]; exact ha') (by rw [← hl]; exact hb)
+  · intro j; rw [hg]; split
+    · split
+      · intro _; rfl
+      · rename_i hne; intro h; exact absurd h hne
+    · exact c.quiet j
+  · intro j hj hp; rw [hl] at hj
+    obtain ⟨hp0, _⟩ := gpe j hp
+    obtain ⟨l1, l2, l3, l4⟩ := c.live j hj hp0
+    refine ⟨by rw [(gcl j).1]; exact l1, by rw [(gcl j).2]; exact l2, by rw [gfd, hk]; exact l3, ?_⟩
+    rw [gfd]
+    by_cases e : j = id
+    · subst e
+      rw [ha, if_neg]; exact l4
+      intro hc
+      apply hp; rw [hg, if_pos ⟨rfl, hj, hc.1⟩, if_pos hc.2.1]
+      exact hc.2.1
+    · exact wat j _ e l4
+  · intro j hj; rw [hq] at hj; rw [hl]
+    have old : j ∈ s.wq → j ≠ id → j < s.ws.length ∧ (getW (ioStop s id m) j).pevents ≠ Mask.none := by
+      intro h hne; have := c.queued j h
+      refine ⟨this.1, ?_⟩
+      rw [hg, if_neg (fun hc => hne hc.1)]; exact this.2
+    split at hj
+    · -- untouched
+      rename_i hlen
+      have := c.queued j hj
+      refine ⟨this.1, ?_⟩
+      rw [hg, if_neg]; exact this.2
+      intro hc; omega
+    · split at hj
+      · have hne : j ≠ id := by
+          intro e; subst e; exact (List.Nodup.mem_erase_iff i.nodup).mp hj |>.1 rfl
+        exact old (List.mem_of_mem_erase hj) hne
+      · rename_i hlen hpe
+        have self : id ∈ s.wq ∨ True → id < s.ws.length ∧ (getW (ioStop s id m) id).pevents ≠ Mask.none := by
+          intro _
+          have hlt : id < s.ws.length := by
+            by_cases h' : id < s.ws.length
+            · exact h'
+            · exfalso; apply hpe; rw [getW_oob s id (by omega)]; exact Mask.diff_none m
+          refine ⟨hlt, ?_⟩
+          rw [hg, if_pos ⟨rfl, hlt, by omega⟩, if_neg hpe]; exact hpe
+        split at hj
+        · by_cases e : j = id
+          · subst e; exact self (Or.inr trivial)
+          · exact old hj e
+        · rcases List.mem_append.mp hj with h | h
+          · by_cases e : j = id
+            · subst e; exact self (Or.inr trivial)
+            · exact old h e
+          · simp at h; subst h; exact self (Or.inr trivial)
+
+/-- EPOLL_CTL_DEL on a descriptor none of whose handles is armed -/
+theorem KCore.ctlDel {s : St} (c : KCore s) (fd : Nat) (m : Mask) (ow : Option Nat)
+    (hun : ∀ id, id < s.ws.length → (getW s id).fd = fd → (getW s id).events = Mask.none) :
+    KCore (ctl s .del fd m ow).1 ∧
+    ∀ o, (ctl s .del fd m ow).1.k.maskAt o fd = none := by
+  have hws : (ctl s .del fd m ow).1.ws = s.ws := rfl
+  have hg : ∀ id, getW (ctl s .del fd m ow).1 id = getW s id := fun _ => rfl
+  have hw : ∀ f, watcherAt (ctl s .del fd m ow).1 f = watcherAt s f := fun _ => rfl
+  have hk : (ctl s .del fd m ow).1.k = (s.k.ctl .del fd m ow).1 := rfl
+  have hof : ∀ f, (ctl s .del fd m ow).1.k.ofdAt f = s.k.ofdAt f := by intro f; rw [hk]; exact ctl_ofdAt _ _ _ _ _ _
+  have hm : ∀ o f, (ctl s .del fd m ow).1.k.maskAt o f = s.k.maskAt o f ∨
+      ((ctl s .del fd m ow).1.k.maskAt o f = none ∧ f = fd) := by
+    intro o f; rw [hk]
+    cases ho : s.k.ofdAt fd with
+    | none => rw [ctl_closed _ _ _ _ _ ho]; left; rfl
+    | some o0 =>
+      rw [ctl_del_maskAt _ _ _ _ _ ho]
+      by_cases hc : o = o0 ∧ f = fd
+      · right; rw [if_pos hc]; exact ⟨rfl, hc.2⟩
+      · left; rw [if_neg hc]
+  constructor
+  · refine ⟨c.sq, ?_, ?_, c.uniq, c.quiet, ?_, c.queued⟩
+    · intro id hl hne
+      obtain ⟨o, h1, h2⟩ := c.armed id hl hne
+      refine ⟨o, by rw [hg, hof]; exact h1, ?_⟩
+      rw [hg]
+      rcases hm o (getW s id).fd with h | h
+      · rw [h]; exact h2
+      · exact absurd (hun id hl h.2) hne
+    · intro o f h
+      rcases hm o f with h' | h'
+      · rw [h'] at h; rw [hof]; exact c.owned o f h
+      · exact absurd h'.1 h
+    · intro id hl hp
+      have := c.live id hl hp
+      exact ⟨this.1, this.2.1, by rw [hg, hof]; exact this.2.2.1, this.2.2.2⟩
+  · intro o; rw [hk]
+    cases ho : s.k.ofdAt fd with
+    | none =>
+      rw [ctl_closed _ _ _ _ _ ho]
+      cases hmm : s.k.maskAt o fd with
+      | none => rfl
+      | some x => have := (c.owned o fd (by rw [hmm]; simp)).1; rw [ho] at this; cases this
+    | some o0 =>
+      rw [ctl_del_maskAt _ _ _ _ _ ho]
+      by_cases hc : o = o0 ∧ fd = fd
+      · rw [if_pos hc]
+      · rw [if_neg hc]
+        cases hmm : s.k.maskAt o fd with
+        | none => rfl
+        | some x =>
+          have := (c.owned o fd (by rw [hmm]; simp)).1; rw [ho] at this
+          simp at this; exact absurd ⟨this.symm, rfl⟩ hc
+
+theorem KCore.invalidate {s : St} (c : KCore s) (fd : Nat)
+    (hun : ∀ id, id < s.ws.length → (getW s id).fd = fd → (getW s id).events = Mask.none) :
+    KCore (invalidate s fd) ∧ ∀ o, (invalidate s fd).k.maskAt o fd = none := by
+  unfold IoWatch.invalidate
+  split
+  · exact (c.frame (t := { s with batch := s.batch.map fun e => if e.1 = some fd then (none, e.2) else e })
+      rfl rfl rfl rfl rfl).ctlDel fd _ _ hun
+  · exact c.ctlDel fd _ _ hun
+
+/-- marking a stopped handle whose descriptor has no kernel entry as closed and/or clean -/
+theorem KCore.retire {s : St} (c : KCore s) (id : Nat) (w : W) (hf : w.fd = (getW s id).fd)
+    (hp : w.pevents = Mask.none) (he : w.events = Mask.none) (hp0 : (getW s id).pevents = Mask.none)
+    (hcl : w.closing = true ∨ w.closing = (getW s id).closing)
+    (hno : ∀ o, s.k.maskAt o (getW s id).fd = none) : KCore (setW s id w) := by
+  have hg : ∀ j, getW (setW s id w) j = if j = id ∧ id < s.ws.length then w else getW s j := fun j => getW_setW s id j w
+  have gfd : ∀ j, (getW (setW s id w) j).fd = (getW s j).fd := by
+    intro j; rw [hg]; split
+    · rename_i e; rw [e.1]; exact hf
+    · rfl
+  have gpe : ∀ j, (getW (setW s id w) j).pevents = (getW s j).pevents := by
+    intro j; rw [hg]; split
+    · rename_i e; rw [e.1, hp, hp0]
+    · rfl
+  have gev : ∀ j, (getW (setW s id w) j).events = (getW s j).events := by
+    intro j; rw [hg]; split
+    · rename_i e; rw [e.1, he, c.quiet id hp0]
+    · rfl
+  have gcl : ∀ j, (getW (setW s id w) j).closing = false → (getW s j).closing = false := by
+    intro j; rw [hg]; split
+    · rename_i e; rw [e.1]; intro h
+      rcases hcl with h' | h'
+      · rw [h'] at h; cases h
+      · rw [← h']; exact h
+    · exact fun h => h
+  refine ⟨c.sq, ?_, ?_, ?_, ?_, ?_, ?_⟩
+  · intro j hl hne; rw [gfd, gev]; rw [gev] at hne; exact c.armed j (by simpa using hl) hne
+  · intro o fd h
+    obtain ⟨a, j, b1, b2, b3, b4⟩ := c.owned o fd h
+    have hj : j ≠ id := by
+      intro e; subst e; rw [b2] at hno; exact h (hno o)
+    refine ⟨a, j, by simpa using b1, ?_⟩
+    rw [hg, if_neg (fun hc => hj hc.1)]; exact ⟨b2, b3, b4⟩
+  · intro a b ha hb; rw [gfd, gfd]; intro hfd h1 h2
+    exact c.uniq a b (by simpa using ha) (by simpa using hb) hfd (gcl a h1) (gcl b h2)
+  · intro j; rw [gpe, gev]; exact c.quiet j
+  · intro j hl hpj; rw [gpe] at hpj
+    have hj : j ≠ id := by intro e; subst e; exact hpj hp0
+    rw [hg, if_neg (fun hc => hj hc.1)]
+    exact c.live j (by simpa using hl) hpj
+  · intro j hj; rw [gpe]; have := c.queued j hj; exact ⟨by simpa using this.1, this.2⟩
+
+end UvModel.IoWatch
+
+namespace UvModel.IoWatch
+
+theorem KCore.push {s : St} (c : KCore s) (w : W) (hp : w.pevents = Mask.none) (he : w.events = Mask.none)
+    (hfree : ∀ j, j < s.ws.length → (getW s j).fd = w.fd → (getW s j).closing = true) :
+    KCore { s with ws := s.ws ++ [w] } := by
+  have hold : ∀ j, j < s.ws.length → getW { s with ws := s.ws ++ [w] } j = getW s j := by
+    intro j hj; simp [getW, List.getD_eq_getElem?_getD, List.getElem?_append, hj]
+  have hnew : getW { s with ws := s.ws ++ [w] } s.ws.length = w := by
+    simp [getW, List.getD_eq_getElem?_getD, List.getElem?_append]
+  have hlen : ({ s with ws := s.ws ++ [w] } : St).ws.length = s.ws.length + 1 := by simp
+  have hcase : ∀ j, j < s.ws.length + 1 → j < s.ws.length ∨ j = s.ws.length := by intro j h; omega
+  have hany : ∀ j, getW { s with ws := s.ws ++ [w] } j = getW s j ∨
+      ((getW { s with ws := s.ws ++ [w] } j).pevents = Mask.none ∧ (getW { s with ws := s.ws ++ [w] } j).events = Mask.none) := by
+    intro j
+    by_cases h1 : j < s.ws.length
+    · left; exact hold j h1
+    · right
+      by_cases h2 : j = s.ws.length
+      · rw [h2, hnew]; exact ⟨hp, he⟩
+      · rw [getW_oob _ j (by rw [hlen]; omega)]; exact ⟨rfl, rfl⟩
+  refine ⟨c.sq, ?_, ?_, ?_, ?_, ?_, ?_⟩
+  · intro j hj hne; rw [hlen] at hj
+    rcases hcase j hj with h | h
+    · rw [hold j h] at hne ⊢; exact c.armed j h hne
+    · rw [h, hnew] at hne; exact absurd he hne
+  · intro o fd h
+    obtain ⟨a, j, b1, b⟩ := c.owned o fd h
+    exact ⟨a, j, by rw [hlen]; omega, by rw [hold j b1]; exact b⟩
+  · intro a b ha hb; rw [hlen] at ha hb
+    rcases hcase a ha with h1 | h1 <;> rcases hcase b hb with h2 | h2
+    · rw [hold a h1, hold b h2]; exact c.uniq a b h1 h2
+    · rw [hold a h1, h2, hnew]; intro hfd hc _; have := hfree a h1 hfd; rw [this] at hc; cases hc
+    · rw [h1, hnew, hold b h2]; intro hfd _ hc; have := hfree b h2 hfd.symm; rw [this] at hc; cases hc
+    · intro _ _ _; rw [h1, h2]
+  · intro j; rcases hany j with h | h
+    · rw [h]; exact c.quiet j
+    · intro _; exact h.2
+  · intro j hj hpj; rw [hlen] at hj
+    rcases hcase j hj with h | h
+    · rw [hold j h] at hpj ⊢; exact c.live j h hpj
+    · rw [h, hnew] at hpj; exact absurd hp hpj
+  · intro j hj; have := c.queued j hj
+    exact ⟨by rw [hlen]; omega, by rw [hold j this.1]; exact this.2⟩
+
+
+end UvModel.IoWatch
+
+namespace UvModel.IoWatch
+
+/-- what one iteration of the watcher-queue loop does to the kernel in direct mode (linux.c:1412-1434):
+the entry of (description at fd, fd) now carries `pevents`; nothing else changes; no `abort()` -/
+theorem applyOne_direct {t : St} (c : KCore t) (hr : t.ring = false) (id : Nat) (hid : id < t.ws.length)
+    (hp : (getW t id).pevents ≠ Mask.none) :
+    ∃ o, t.k.ofdAt (getW t id).fd = some o ∧
+      (∀ f, (applyOne t id).k.ofdAt f = t.k.ofdAt f) ∧
+      (∀ o' f', (applyOne t id).k.maskAt o' f' =
+        if o' = o ∧ f' = (getW t id).fd then some (getW t id).pevents else t.k.maskAt o' f') ∧
+      (applyOne t id).aborted = t.aborted := by
+  obtain ⟨_, _, hopen, _⟩ := c.live id hid hp
+  cases ho : t.k.ofdAt (getW t id).fd with
+  | none => rw [ho] at hopen; simp at hopen
+  | some o =>
+    refine ⟨o, rfl, ?_⟩
+    generalize hw : getW t id = w at *
+    have hk1 : (setW t id { w with events := w.pevents }).k = t.k := rfl
+    have hr1 : (setW t id { w with events := w.pevents }).ring = false := hr
+    unfold applyOne; simp only [hw, hr1, Bool.false_eq_true, ↓reduceIte]
+    by_cases hev : w.events = Mask.none
+    · simp only [hev, ↓reduceIte]
+      cases hm : t.k.maskAt o w.fd with
+      | none =>
+        have := ctl_add_new t.k w.fd o w.pevents (some id) ho hm
+        have r0 : (ctl (setW t id { w with events := w.pevents }) .add w.fd w.pevents (some id)).2 = 0 := this.1
+        simp only [r0, ↓reduceIte]
+        refine ⟨fun f => ctl_ofdAt _ _ _ _ _ _, fun o' f' => this.2 o' f', rfl⟩
+      | some x =>
+        have hne : t.k.maskAt o w.fd ≠ none := by rw [hm]; simp
+        have e1 := ctl_add_exists t.k w.fd o w.pevents (some id) ho hne
+        have r1 : (ctl (setW t id { w with events := w.pevents }) .add w.fd w.pevents (some id)).2 = -17 := by
+          show (t.k.ctl .add w.fd w.pevents (some id)).2 = -17; rw [e1]
+        have k1 : (ctl (setW t id { w with events := w.pevents }) .add w.fd w.pevents (some id)).1.k = t.k := by
+          show (t.k.ctl .add w.fd w.pevents (some id)).1 = t.k; rw [e1]
+        have := ctl_mod_ok t.k w.fd o w.pevents (some id) ho hne
+        have r2 : (ctl (ctl (setW t id { w with events := w.pevents }) .add w.fd w.pevents (some id)).1
+            .mod w.fd w.pevents (some id)).2 = 0 := by
+          show (((ctl (setW t id { w with events := w.pevents }) .add w.fd w.pevents (some id)).1.k).ctl .mod w.fd w.pevents (some id)).2 = 0
+          rw [k1]; exact this.1
+        simp only [r1, r2]
+        simp
+        refine ⟨fun f => ?_, fun o' f' => ?_, rfl⟩
+        · show (((ctl (setW t id { w with events := w.pevents }) .add w.fd w.pevents (some id)).1.k).ctl .mod w.fd w.pevents (some id)).1.ofdAt f = _
+          rw [k1]; exact ctl_ofdAt _ _ _ _ _ _
+        · show (((ctl (setW t id { w with events := w.pevents }) .add w.fd w.pevents (some id)).1.k).ctl .mod w.fd w.pevents (some id)).1.maskAt o' f' = _
+          rw [k1]; exact this.2 o' f'
+    · simp only [hev, ↓reduceIte]
+      obtain ⟨o2, a1, a2⟩ := c.armed id hid (by rw [hw]; exact hev)
+      rw [hw] at a1 a2
+      rw [ho] at a1; simp at a1; subst a1
+      have hne : t.k.maskAt o w.fd ≠ none := by rw [a2]; simp
+      have := ctl_mod_ok t.k w.fd o w.pevents (some id) ho hne
+      have r0 : (ctl (setW t id { w with events := w.pevents }) .mod w.fd w.pevents (some id)).2 = 0 := this.1
+      simp only [r0, ↓reduceIte]
+      refine ⟨fun f => ctl_ofdAt _ _ _ _ _ _, fun o' f' => this.2 o' f', rfl⟩
+
+end UvModel.IoWatch
+
+namespace UvModel.IoWatch
+
+theorem applyOne_direct_sq (t : St) (hr : t.ring = false) (id : Nat) :
+    (applyOne t id).sq = t.sq ∧ (applyOne t id).ring = false := by
+  have hr1 : ∀ w, (setW t id w).ring = false := fun _ => hr
+  unfold applyOne; simp only [hr1, Bool.false_eq_true, ↓reduceIte]
+  repeat' split
+  all_goals exact ⟨rfl, hr⟩
+
+theorem KCore.applyOne {t : St} (c : KCore t) (hr : t.ring = false) (id : Nat) (hid : id < t.ws.length)
+    (hp : (getW t id).pevents ≠ Mask.none) : KCore (applyOne t id) := by
+  obtain ⟨o, ho, hof, hmk, _⟩ := applyOne_direct c hr id hid hp
+  have hs := applyOne_same t id
+  obtain ⟨hsq, _⟩ := applyOne_direct_sq t hr id
+  have hg : ∀ j, getW (IoWatch.applyOne t id) j =
+      if j = id then { getW t id with events := (getW t id).pevents } else getW t j := by
+    intro j
+    have : getW (IoWatch.applyOne t id) j = getW (setW t id { getW t id with events := (getW t id).pevents }) j := by
+      simp [getW, hs.1]
+    rw [this, getW_setW]; simp [hid]
+  have hlen : (IoWatch.applyOne t id).ws.length = t.ws.length := by rw [hs.1]; simp
+  have hwat : ∀ f, watcherAt (IoWatch.applyOne t id) f = watcherAt t f := by
+    intro f; simp only [watcherAt, hs.2.1]; rfl
+  have lvid := c.live id hid hp
+  have gfd : ∀ j, (getW (IoWatch.applyOne t id) j).fd = (getW t j).fd := by
+    intro j; rw [hg]; split
+    · rename_i e; rw [e]
+    · rfl
+  have gpe : ∀ j, (getW (IoWatch.applyOne t id) j).pevents = (getW t j).pevents := by
+    intro j; rw [hg]; split
+    · rename_i e; rw [e]
+    · rfl
+  have gcl : ∀ j, (getW (IoWatch.applyOne t id) j).closing = (getW t j).closing ∧
+      (getW (IoWatch.applyOne t id) j).clean = (getW t j).clean := by
+    intro j; rw [hg]; split
+    · rename_i e; rw [e]; exact ⟨rfl, rfl⟩
+    · exact ⟨rfl, rfl⟩
+  refine ⟨by rw [hsq]; exact c.sq, ?_, ?_, ?_, ?_, ?_, ?_⟩
+  · intro j hj hne; rw [hlen] at hj
+    by_cases e : j = id
+    · subst e
+      refine ⟨o, by rw [gfd, hof]; exact ho, ?_⟩
+      rw [gfd, hmk, if_pos ⟨rfl, rfl⟩, hg, if_pos rfl]
+    · rw [hg, if_neg e] at hne
+      obtain ⟨oj, a1, a2⟩ := c.armed j hj hne
+      refine ⟨oj, by rw [gfd, hof]; exact a1, ?_⟩
+      rw [gfd, hmk, if_neg, hg, if_neg e]; exact a2
+      intro hc
+      have hpj : (getW t j).pevents ≠ Mask.none := fun h0 => hne (c.quiet j h0)
+      have lj := (c.live j hj hpj).2.2.2
+      rw [hc.2, lvid.2.2.2] at lj; simp at lj; exact e lj.symm
+  · intro o' f' h; rw [hmk] at h
+    by_cases hc : o' = o ∧ f' = (getW t id).fd
+    · obtain ⟨rfl, rfl⟩ := hc
+      refine ⟨by rw [hof]; exact ho, id, by rw [hlen]; exact hid, gfd id, by rw [(gcl id).1]; exact lvid.1, ?_⟩
+      rw [(gcl id).2, lvid.2.1]; simp
+    · rw [if_neg hc] at h
+      obtain ⟨a, j, b1, b2, b3, b4⟩ := c.owned o' f' h
+      exact ⟨by rw [hof]; exact a, j, by rw [hlen]; exact b1, by rw [gfd]; exact b2,
+        by rw [(gcl j).1]; exact b3, by rw [(gcl j).2, gpe]; exact b4⟩
+  · intro a b ha hb; rw [gfd, gfd, (gcl a).1, (gcl b).1]
+    exact c.uniq a b (by rw [← hlen]; exact ha) (by rw [← hlen]; exact hb)
+  · intro j; rw [hg]; split
+    · intro h; exact h
+    · exact c.quiet j
+  · intro j hj hpj; rw [hlen] at hj; rw [gpe] at hpj
+    have l := c.live j hj hpj
+    exact ⟨by rw [(gcl j).1]; exact l.1, by rw [(gcl j).2]; exact l.2.1, by rw [gfd, hof]; exact l.2.2.1,
+      by rw [gfd, hwat]; exact l.2.2.2⟩
+  · intro j hj; rw [hs.2.2.2] at hj; rw [hlen, gpe]
+    exact c.queued j hj
+
+theorem KCore.foldApply (l : List Nat) {t : St} (c : KCore t) (hr : t.ring = false)
+    (hl : ∀ id ∈ l, id < t.ws.length ∧ (getW t id).pevents ≠ Mask.none) :
+    KCore (l.foldl IoWatch.applyOne t) := by
+  induction l generalizing t with
+  | nil => exact c
+  | cons a r ih =>
+    simp only [List.foldl_cons]
+    have ha := hl a (by simp)
+    have hs := applyOne_same t a
+    have hg : ∀ j, (getW (IoWatch.applyOne t a) j).pevents = (getW t j).pevents := by
+      intro j
+      have : getW (IoWatch.applyOne t a) j = getW (setW t a { getW t a with events := (getW t a).pevents }) j := by
+        simp [getW, hs.1]
+      rw [this, getW_setW]; split
+      · rename_i e; rw [e.1]
+      · rfl
+    have hlen : (IoWatch.applyOne t a).ws.length = t.ws.length := by rw [hs.1]; simp
+    refine ih (c.applyOne hr a ha.1 ha.2) (applyOne_direct_sq t hr a).2 ?_
+    intro id hid; rw [hlen, hg]; exact hl id (List.mem_cons_of_mem _ hid)
+
+theorem flushOnce_nil (x : St) (h : x.sq = []) : flushOnce x = x := by
+  cases x; simp only at h; subst h; rfl
+
+/-- direct mode: the kernel invariant survives `uv__io_poll`'s queue application (and the no-op flush) -/
+theorem KCore.applyQueue {s : St} (c : KCore s) (hr : s.ring = false) : KCore (flushAll (applyQueue s)) := by
+  have c0 : KCore { s with wq := [] } :=
+    ⟨c.sq, c.armed, c.owned, c.uniq, c.quiet, c.live, by intro id h; simp at h⟩
+  have c1 : KCore (IoWatch.applyQueue s) := by
+    unfold IoWatch.applyQueue
+    exact KCore.foldApply s.wq c0 hr (fun id h => c.queued id h)
+  have hsq := c1.sq
+  have e : flushAll (IoWatch.applyQueue s) = IoWatch.applyQueue s := by
+    unfold flushAll; rw [flushOnce_nil _ hsq, flushOnce_nil _ hsq]
+  rw [e]; exact c1
+
+end UvModel.IoWatch
+
+namespace UvModel.IoWatch
+
+theorem kcore_init (ring : Bool) (internal nw : Nat) : KCore (init ring internal nw) := by
+  refine ⟨rfl, ?_, ?_, ?_, ?_, ?_, ?_⟩
+  · intro id h; simp [init] at h
+  · intro o fd h; simp [init, Kernel.maskAt, entMask] at h
+  · intro i j h; simp [init] at h
+  · intro id _; simp [init, getW]; rfl
+  · intro id h; simp [init] at h
+  · intro id h; simp [init] at h
+
+end UvModel.IoWatch
+
